@@ -29,7 +29,9 @@
 //     constants such as dns.MaxMsgSize are resolved from the dependency's
 //     export data), parameters, locals, field selectors, arithmetic,
 //     comparisons, !, && and || with Go's short-circuit order, integer
-//     conversions (identity), the built-ins min and max;
+//     conversions (identity), the built-ins min and max; the integer conversion
+//     of `d.Seconds()` for a time.Duration d is `Int.tdiv d 1e9` (whole
+//     seconds; float64 rounding of huge durations is not modelled);
 //   - a call to another function of the same translation list is a call of its
 //     Lean definition; cmp.Or over errors is "first non-nil, all arguments
 //     evaluated"; validateProp(name, f) is `f()` (the name prefix is kept in
@@ -124,6 +126,25 @@
 //   - "func": "Outer#name" selects the function literal bound by
 //     `name := func(…) {…}` inside Outer; captured variables of translatable
 //     type become leading parameters, abstract ones are treated as above;
+//   - with "trace", an assignment to a field of abstract type of a translated
+//     struct (`cr.subnet = netutil.ZeroPrefix(fam)`) is the trace entry
+//     ("set cr.subnet", [name]) as well;
+//   - with the option "names" a value of abstract type that is assigned to a
+//     local or returned is instead represented by a *symbolic name* (a Lean
+//     String): the source text of the field path, parameter, `nil` or call that
+//     produced it (the call is traced); such a local or a field path passed to
+//     a traced call appears in the trace entry by that name, and a method
+//     called on such a local records the name as first argument ("which of the
+//     two caches is written"); results of abstract type are such names;
+//   - with "trace", `for k, v := range X` over an abstract X whose body consists
+//     only of traced calls, assignments to fields of abstract objects and nested
+//     such loops, and reads no value that varies per element (no new opaque
+//     parameter), is an *effect loop*: the trace entries ("for", ["v, k, range
+//     X"]), the entries of the body (once: they are the same for every
+//     element), ("end", []);
+//   - a type switch on an abstract value is an if-chain, in clause order, over
+//     extra Bool parameters `e<k>_is_<T>` ("the dynamic type is T"); fields of
+//     the narrowed value are opaque values as above;
 //   - []error literals, append on them and errors.Join are lists of optional
 //     texts and "first non-nil" (errors.Join is non-nil iff an element is);
 //   - opaque calls and reads from abstract objects are not allowed inside
@@ -222,6 +243,9 @@ type TrFunc struct {
 	// values; `v := x.f` / `v := f(…)` drops the binding (the call stays an
 	// effect) and `x.f = v` on an abstract x is the entry ("f=", [v]).
 	DropAbstract bool `json:"drop_abstract,omitempty"`
+	// Names represents values of abstract type by symbolic names (Strings)
+	// instead of their nil-ness; see the header comment.
+	Names bool `json:"names,omitempty"`
 }
 
 type trSpecFile struct {
@@ -581,6 +605,8 @@ type fctx struct {
 	defers      []deferred
 	onEnd       func() string
 	opaqueNodes map[ast.Expr]string
+	typeTests   map[*ast.TypeAssertExpr]bool
+	loopEnd     map[*ast.EmptyStmt]int
 	opaqueCalls map[*ast.CallExpr]string
 	nonNil      map[types.Object]bool
 }
@@ -706,6 +732,12 @@ func implementsError(t types.Type) bool {
 // exprAs translates e for a context of type to (implicit conversion of a
 // concrete error value to the error interface).
 func (c *fctx) exprAs(e ast.Expr, to types.Type) ex {
+	if c.spec.Names && to != nil && c.t.leanType(to) == "" {
+		if a, ok := c.absExpr(e, true); ok {
+			return a
+		}
+		fail("abstract value %s", c.show(e))
+	}
 	if to != nil && c.t.leanType(to) == "" && c.t.valType(to) == "AbsPtr" {
 		// a value flowing into an abstract nil-able type: only its nil-ness is kept
 		if id, ok := e.(*ast.Ident); ok && id.Name == "nil" {
@@ -757,6 +789,43 @@ func (c *fctx) exprAs(e ast.Expr, to types.Type) ex {
 		}
 	}
 	return c.expr(e)
+}
+
+// absExpr gives the symbolic name (a Lean String) of an expression of abstract
+// type ("names"): a local holds the name it was assigned; a field path is its
+// own source text; where value is set (assignments, returns) nil and parameters
+// are their own text too and a call is traced and named by its source text.
+func (c *fctx) absExpr(e ast.Expr, value bool) (ex, bool) {
+	switch x := ast.Unparen(e).(type) {
+	case *ast.Ident:
+		v, ok := c.p.info.Uses[x].(*types.Var)
+		if ok && v.Parent() != c.p.pkg.Scope() && !(c.fd.Type.Params.Pos() <= v.Pos() && v.Pos() < c.fd.Type.Params.End()) &&
+			!(c.fd.Recv != nil && c.fd.Recv.Pos() <= v.Pos() && v.Pos() < c.fd.Recv.End()) {
+			return ex{code: leanIdent(x.Name)}, true
+		}
+		return ex{code: fmt.Sprintf("%q", x.Name)}, value
+	case *ast.SelectorExpr:
+		if c.isFieldPath(x) {
+			return ex{code: fmt.Sprintf("%q", c.show(x))}, true
+		}
+	case *ast.CallExpr:
+		if value {
+			return ex{code: "«call:" + c.traceEntry(x) + "»" + fmt.Sprintf("%q", c.show(x))}, true
+		}
+	}
+	return ex{}, false
+}
+
+func (c *fctx) isFieldPath(e ast.Expr) bool {
+	switch x := e.(type) {
+	case *ast.Ident:
+		_, ok := c.p.info.Uses[x].(*types.Var)
+		return ok
+	case *ast.SelectorExpr:
+		sel := c.p.info.Selections[x]
+		return sel != nil && sel.Kind() == types.FieldVal && c.isFieldPath(x.X)
+	}
+	return false
 }
 
 // bind2 combines sub-expressions: f receives pure codes.
@@ -952,6 +1021,21 @@ func (c *fctx) expr(e ast.Expr) ex {
 			c.opaqueNodes[e] = name
 		}
 		return ex{code: pre + "«call:(\"slice\", [" + c.traceArg(se) + "])»" + name}
+	}
+	if ta, ok := e.(*ast.TypeAssertExpr); ok && c.typeTests[ta] {
+		// "the dynamic type of X is T" (a clause of a type switch): an opaque Bool
+		key := c.show(ta.X) + " is " + c.show(ta.Type)
+		if n, ok := c.opaqueVals[key]; ok {
+			return ex{code: n}
+		}
+		if c.opaqueVals == nil {
+			c.opaqueVals = map[string]string{}
+		}
+		c.nOpaque++
+		name := fmt.Sprintf("e%d_is_%s", c.nOpaque, sanitize(lastName(c.show(ta.Type))))
+		c.opaque = append(c.opaque, fmt.Sprintf("(%s : Bool)", name))
+		c.opaqueVals[key] = name
+		return ex{code: name}
 	}
 	fail("expression %s (%T)", c.show(e), e)
 	return ex{}
@@ -1334,6 +1418,20 @@ func (c *fctx) call(x *ast.CallExpr) ex {
 		if c.t.leanType(from) != "" && c.t.leanType(from) == c.t.leanType(to) {
 			return c.expr(x.Args[0])
 		}
+		if in, ok := x.Args[0].(*ast.CallExpr); ok && isInt(to) && len(in.Args) == 0 {
+			// intN(d.Seconds()) for a time.Duration d: whole seconds, truncated
+			// (the float64 rounding of very large durations is not modelled)
+			if key, recv := c.calleeKey(in); key == "time.Duration.Seconds" {
+				a := c.expr(recv)
+				return c.bindN([]ex{a}, func(s []string) string {
+					r := "(Int.tdiv " + s[0] + " (1000000000 : Int))"
+					if bits := unsignedBits(to); bits > 0 {
+						return fmt.Sprintf("(goWrapU %s %s)", pow2(bits), r)
+					}
+					return r
+				})
+			}
+		}
 		fail("conversion %s from %s", c.show(x), from)
 	}
 	// builtins
@@ -1515,6 +1613,14 @@ func (c *fctx) traceEntry(x *ast.CallExpr) string {
 			args = append(args, c.traceArg(se.X))
 		}
 	}
+	if se, ok := x.Fun.(*ast.SelectorExpr); ok && c.spec.Names {
+		// a method of an abstract *local*: which value it holds is the first argument
+		if id, ok := se.X.(*ast.Ident); ok && c.p.info.Selections[se] != nil && c.t.leanType(c.typeOf(id)) == "" {
+			if a, ok := c.absExpr(id, false); ok {
+				args = append(args, a.code)
+			}
+		}
+	}
 	for _, a := range x.Args {
 		args = append(args, c.traceArg(a))
 	}
@@ -1557,6 +1663,11 @@ func (c *fctx) traceArg(a ast.Expr) (code string) {
 		}
 	}
 	lt := c.t.leanType(tv.Type)
+	if lt == "" && c.spec.Names {
+		if a, ok := c.absExpr(a, false); ok {
+			return a.code
+		}
+	}
 	if se, ok := a.(*ast.SliceExpr); ok && lt != "String" && !c.t.symbolic {
 		// a slice expression: the operand's source text with the bounds' values
 		// (in symbolic mode it is an opaque value, rendered as a token below)
@@ -2087,10 +2198,50 @@ func (c *fctx) stmts(list []ast.Stmt) string {
 		})
 	case *ast.SwitchStmt:
 		return c.stmts(append(c.desugarSwitch(x), rest...))
+	case *ast.EmptyStmt:
+		if n, ok := c.loopEnd[x]; ok {
+			if c.nOpaque != n {
+				fail("loop body reads values that vary per element")
+			}
+			return "let tr := tr ++ [(\"end\", [])]\n" + c.stmts(rest)
+		}
+		return c.stmts(rest)
 	case *ast.RangeStmt:
-		return c.rangeLoop(x, rest)
+		if !c.trace || !c.t.isAbstract(c.typeOf(x.X)) {
+			return c.rangeLoop(x, rest)
+		}
+		// effect loop over an abstract collection: see the header comment
+		head := "range " + c.show(x.X)
+		for _, v := range []ast.Expr{x.Value, x.Key} {
+			if id, ok := v.(*ast.Ident); ok && (id.Name == "_" || c.t.isAbstract(c.lhsType(id))) {
+				head = id.Name + ", " + head
+			} else if v != nil {
+				fail("loop variable %s", c.show(v))
+			}
+		}
+		for _, b := range x.Body.List {
+			switch s := b.(type) {
+			case *ast.RangeStmt, *ast.ExprStmt:
+			case *ast.AssignStmt:
+				if len(s.Lhs) != 1 || s.Tok != token.ASSIGN || !c.abstractTarget(s.Lhs[0]) {
+					fail("assignment %s in a loop over an abstract collection", c.show(s))
+				}
+			default:
+				fail("statement %s in a loop over an abstract collection", c.show(b))
+			}
+		}
+		end := &ast.EmptyStmt{}
+		if c.loopEnd == nil {
+			c.loopEnd = map[*ast.EmptyStmt]int{}
+		}
+		c.loopEnd[end] = c.nOpaque
+		return fmt.Sprintf("let tr := tr ++ [(\"for\", [%q])]\n", head) +
+			c.stmts(append(append(append([]ast.Stmt{}, x.Body.List...), end), rest...))
 	case *ast.TypeSwitchStmt:
-		return c.typeSwitch(x, rest)
+		if c.typeSwitchSubjectSymbolic(x) {
+			return c.typeSwitch(x, rest)
+		}
+		return c.stmts(append(c.desugarTypeSwitch(x), rest...))
 	case *ast.BranchStmt:
 		if c.loop != nil && x.Label == nil {
 			switch x.Tok {
@@ -2103,8 +2254,6 @@ func (c *fctx) stmts(list []ast.Stmt) string {
 		fail("branch statement %s", x.Tok)
 	case *ast.BlockStmt:
 		return c.stmts(append(append([]ast.Stmt{}, x.List...), rest...))
-	case *ast.EmptyStmt:
-		return c.stmts(rest)
 	case *ast.DeclStmt:
 		gd, ok := x.Decl.(*ast.GenDecl)
 		if ok && gd.Tok == token.CONST {
@@ -2364,6 +2513,51 @@ func (c *fctx) desugarSwitch(x *ast.SwitchStmt) []ast.Stmt {
 	return append(pre, chain)
 }
 
+// typeSwitchSubjectSymbolic reports whether the subject of a type switch is a
+// symbolic interface value (Option String): then typeSwitch compares dynamic type
+// names; otherwise (abstract subject) desugarTypeSwitch uses opaque Bool tests.
+func (c *fctx) typeSwitchSubjectSymbolic(x *ast.TypeSwitchStmt) bool {
+	var ta *ast.TypeAssertExpr
+	switch a := x.Assign.(type) {
+	case *ast.ExprStmt:
+		ta, _ = a.X.(*ast.TypeAssertExpr)
+	case *ast.AssignStmt:
+		ta, _ = a.Rhs[0].(*ast.TypeAssertExpr)
+	}
+	return ta != nil && c.t.leanType(c.typeOf(ta.X)) == "(Option String)"
+}
+
+// desugarTypeSwitch turns a type switch on an abstract value into an if-chain
+// over opaque Bool parameters "the dynamic type is T", tested in clause order.
+func (c *fctx) desugarTypeSwitch(x *ast.TypeSwitchStmt) []ast.Stmt {
+	var ta *ast.TypeAssertExpr
+	switch a := x.Assign.(type) {
+	case *ast.ExprStmt:
+		ta, _ = a.X.(*ast.TypeAssertExpr)
+	case *ast.AssignStmt:
+		ta, _ = a.Rhs[0].(*ast.TypeAssertExpr)
+	}
+	if x.Init != nil || ta == nil || c.t.leanType(c.typeOf(ta.X)) != "" {
+		fail("type switch %s", c.show(x.Assign))
+	}
+	if c.typeTests == nil {
+		c.typeTests = map[*ast.TypeAssertExpr]bool{}
+	}
+	sw := &ast.SwitchStmt{Body: &ast.BlockStmt{}}
+	for _, cl := range x.Body.List {
+		cc := cl.(*ast.CaseClause)
+		nc := &ast.CaseClause{Body: cc.Body}
+		for _, ty := range cc.List {
+			t := &ast.TypeAssertExpr{X: ta.X, Type: ty}
+			c.p.info.Types[t] = types.TypeAndValue{Type: types.Typ[types.Bool]}
+			c.typeTests[t] = true
+			nc.List = append(nc.List, t)
+		}
+		sw.Body.List = append(sw.Body.List, nc)
+	}
+	return c.desugarSwitch(sw)
+}
+
 func (c *fctx) assignStmt(x *ast.AssignStmt, rest []ast.Stmt) string {
 	if len(x.Lhs) == 1 && len(x.Rhs) == 1 && !c.spec.DropAbstract && c.abstractTarget(x.Lhs[0]) {
 		op := ""
@@ -2519,7 +2713,8 @@ func (c *fctx) abstractTarget(lhs ast.Expr) bool {
 	}
 	// a field of abstract type inside a translated struct is not part of the
 	// Lean structure: writing it is an effect as well
-	if sel := c.p.info.Selections[se]; sel != nil && sel.Kind() == types.FieldVal && c.t.isAbstract(sel.Obj().Type()) {
+	// (with "names" the write is recorded by assignCode, with the name of the value)
+	if sel := c.p.info.Selections[se]; sel != nil && sel.Kind() == types.FieldVal && c.t.isAbstract(sel.Obj().Type()) && !c.spec.Names {
 		return true
 	}
 	return false
@@ -2579,6 +2774,15 @@ func (c *fctx) assignCode(lhs ast.Expr, code string, k func() string) string {
 				code = "\"_\""
 			}
 			return fmt.Sprintf("let tr := tr ++ [(%q, [%s])]\n", l.Sel.Name+"=", code) + k()
+		}
+		if c.trace && c.t.isAbstract(c.typeOf(lhs)) {
+			// a field of abstract type of a translated struct is not part of
+			// the Lean structure: the write is an effect, recorded in the trace
+			arg := "\"_\""
+			if c.spec.Names {
+				arg = code
+			}
+			return fmt.Sprintf("let tr := tr ++ [(%q, [%s])]\n", "set "+c.show(lhs), arg) + k()
 		}
 		base, ok := l.X.(*ast.Ident)
 		if !ok {
@@ -2815,6 +3019,10 @@ func (t *translator) translate(sp TrFunc) (fo *funcOut) {
 		if v.Name() != "" {
 			c.named = true
 		}
+		if t.leanType(v.Type()) == "" && sp.Names {
+			resTypes = append(resTypes, "String") // symbolic name of an abstract value
+			continue
+		}
 		resTypes = append(resTypes, t.valType(v.Type()))
 	}
 	if c.trace {
@@ -2823,6 +3031,10 @@ func (t *translator) translate(sp TrFunc) (fo *funcOut) {
 	pre := ""
 	if c.named {
 		for _, v := range c.results {
+			if t.leanType(v.Type()) == "" && sp.Names {
+				pre += fmt.Sprintf("let %s : String := \"nil\"\n", leanIdent(v.Name()))
+				continue
+			}
 			pre += fmt.Sprintf("let %s : %s := %s\n", leanIdent(v.Name()), t.valType(v.Type()), c.zero(v.Type()))
 		}
 	}
